@@ -13,13 +13,24 @@
 (* C09: whatever the sink does, on success it holds exactly enc; C14: on   *)
 (* failure the error carries the sink's kind (WriteZero for a zero-length  *)
 (* write) and the sink holds a strict prefix of enc.                       *)
+(*                                                                         *)
+(* The sink is a socket, not a Vec: a write may be VECTORED (the sink      *)
+(* takes k bytes across the slices it is offered - at this level the same  *)
+(* as Accept(k) on the bytes not yet written, wherever the slices are      *)
+(* cut), and after a write fault the connection is dead: flushing or       *)
+(* shutting it down fails with ANOTHER kind (FlushAfterFault).  The        *)
+(* encoder reports the FIRST fault (variable fault), never what a later    *)
+(* flush said.  Several encodings may be in flight on one thread, each     *)
+(* with its own sink: the state of a job is (job, piece, off) and nothing  *)
+(* else, so suspending one at a Pending and running another changes        *)
+(* nothing (bound to the code by the Interleave events of C09).            *)
 (***************************************************************************)
 EXTENDS Wire
 
 CONSTANTS Encs,            \* set of <<mode, bytes, pieces>>: mode "async" | "stream", pieces = write_all arguments
           Kinds
-VARIABLES job, piece, off, sink, lastW, ret, res
-evars == <<job, piece, off, sink, lastW, ret, res>>
+VARIABLES job, piece, off, sink, lastW, ret, res, fault
+evars == <<job, piece, off, sink, lastW, ret, res, fault>>
 
 Mode == job[1]
 Target == job[2]
@@ -27,6 +38,7 @@ Pieces == job[3]
 Cur == Pieces[piece]                    \* the slice given to the current write_all
 
 EInit == job \in Encs /\ piece = 1 /\ off = 0 /\ sink = <<>> /\ lastW = "none" /\ ret = "none" /\ res = "run"
+         /\ fault = "none"
 Running == res = "run"
 
 \* the current write_all is complete: next piece, or done
@@ -38,19 +50,25 @@ Advance(noff) ==
 Accept(k) ==
     /\ Running /\ piece <= Len(Pieces) /\ k >= 1 /\ k <= Len(Cur) - off
     /\ sink' = sink \o SubSeq(Cur, off + 1, off + k)
-    /\ lastW' = "accept" /\ Advance(off + k) /\ UNCHANGED job
+    /\ lastW' = "accept" /\ Advance(off + k) /\ UNCHANGED <<job, fault>>
 \* an empty piece is a write_all of zero bytes: nothing is offered to the sink
 SkipEmpty ==
     /\ Running /\ piece <= Len(Pieces) /\ Len(Cur) = 0
-    /\ Advance(0) /\ UNCHANGED <<job, sink, lastW>>
+    /\ Advance(0) /\ UNCHANGED <<job, sink, lastW, fault>>
 SinkPending == /\ Running /\ Mode = "async" /\ Len(Cur) > off
-               /\ lastW' = "pending" /\ ret' = "pending" /\ UNCHANGED <<job, piece, off, sink, res>>
+               /\ lastW' = "pending" /\ ret' = "pending" /\ UNCHANGED <<job, piece, off, sink, res, fault>>
 SinkZero    == /\ Running /\ Len(Cur) > off
-               /\ lastW' = "zero" /\ ret' = "ready" /\ res' = "WriteZero" /\ UNCHANGED <<job, piece, off, sink>>
+               /\ lastW' = "zero" /\ ret' = "ready" /\ res' = "WriteZero" /\ fault' = "WriteZero"
+               /\ UNCHANGED <<job, piece, off, sink>>
 SinkFail(k) == /\ Running /\ Len(Cur) > off
-               /\ lastW' = "fail" /\ ret' = "ready" /\ res' = k /\ UNCHANGED <<job, piece, off, sink>>
+               /\ lastW' = "fail" /\ ret' = "ready" /\ res' = k /\ fault' = k /\ UNCHANGED <<job, piece, off, sink>>
+\* the connection is dead after the fault: a flush / shutdown of the sink fails with whatever kind; it is not the
+\* encoder's result
+FlushAfterFault == /\ fault # "none" /\ lastW' = "flushfail"
+                   /\ UNCHANGED <<job, piece, off, sink, ret, res, fault>>
 
-ENext == (\E k \in 1..40 : Accept(k)) \/ SkipEmpty \/ SinkPending \/ SinkZero \/ \E k \in Kinds : SinkFail(k)
+ENext == (\E k \in 1..40 : Accept(k)) \/ SkipEmpty \/ SinkPending \/ SinkZero \/ (\E k \in Kinds : SinkFail(k))
+         \/ FlushAfterFault
 ESpec == EInit /\ [][ENext]_evars
 EFair == ESpec /\ WF_evars((\E k \in 1..40 : Accept(k)) \/ SkipEmpty)
 
@@ -60,6 +78,7 @@ FailKeepsKind == (res \notin {"run", "ok"}) =>
                     /\ Len(sink) < Len(Target)
                     /\ (lastW = "zero" => res = "WriteZero")
                     /\ (lastW = "fail" => res \in Kinds)
+                    /\ res = fault                          \* the first fault, whatever a later flush answered
 PendingOnlyIfSinkDid == ret = "pending" => lastW = "pending"
 PiecesAreTheTarget == FlattenSeq(Pieces) = Target
 Finishes == <>(res # "run")
